@@ -1,5 +1,5 @@
 (* Props/C14.v — Overlay rebase is a faithful three-way merge that never loses an edit.
-   Statements only; proofs in Proofs/RebaseP.v.  All theorems hold for EVERY oracle triple
+   Statements only; proofs in Proofs/RebaseP.v and Proofs/RebaseFailP.v.  All theorems hold for EVERY oracle triple
    (merge3 = git merge-file, git_apply = git apply, diff = git diff --no-index); where git's
    contract is needed it is an explicit premise about the byte strings at hand ([diff_ok], ...).
 
@@ -9,7 +9,7 @@
    [materialize_dir files up r]       : what the module materialises to at r (overlay over upstream).
    [patch_result patches up rt]       : the same for a patch overlay (new upstream with the patch for
        rt applied); [patch_materialize] ties it to the composition function. *)
-From AP Require Import Base.Str Base.StrFacts Model.Rebase Proofs.RebaseP.
+From AP Require Import Base.Str Base.StrFacts Base.Sorting Model.Rebase Proofs.RebaseP Proofs.RebaseFailP.
 From AP Require Gen.Tables.
 Open Scope N_scope.
 
@@ -362,3 +362,42 @@ Proof.
   destruct (str_eqb p px_p0 && str_eqb b px_base); [inversion H; reflexivity|].
   destruct (str_eqb p px_p1 && str_eqb b px_up); [inversion H; reflexivity|discriminate].
 Qed.
+
+(* ------------------------------------------------------------------------------------------ *)
+(* "never loses an edit" across an ABORTED rebase (an E_* other than the conflict report: merge-file
+   failure, missing base, unsupported baseline).  The baseline is refreshed only by a run that completes:
+   after an abort it is the one the run started from, whatever the overlay kind ... *)
+Theorem C14_failed_keeps_baseline : forall merge3 git_apply diff o w ov ov' c,
+  rebase_overlay merge3 git_apply diff o w ov = (ov', inl c) -> ov_baseline ov' = ov_baseline ov.
+Proof. exact failed_keeps_baseline. Qed.
+Print Assumptions C14_failed_keeps_baseline.
+
+(* ... and for a directory overlay the abort happened at ONE file of the sorted listing (its triple makes
+   the per-file step fail with that code); every file not handled before it is byte for byte what it was.
+   So the next run decides those files from the same (base, ours, upstream) triples: their upstream edits
+   are still merged, not taken for "already seen". *)
+Theorem C14_failed_dir_resumable : forall merge3 git_apply diff o w ov ov' c bl,
+  ov_kind ov = KDir -> ov_baseline ov = Some bl ->
+  rebase_overlay merge3 git_apply diff o w ov = (ov', inl c) ->
+  ov' = ov \/
+  exists done r ours rest,
+    isort entry_leb (ov_files ov) = done ++ (r, ours) :: rest /\
+    rebase_dir_file merge3 o (bl_files bl r) (bl_base bl r) ours (w_up w r) = FErr c /\
+    ov_baseline ov' = Some bl /\ ov_patches ov' = ov_patches ov /\ ov_conflicts ov' = ov_conflicts ov /\
+    (forall q, ~ In q (keys done) -> lookup q (ov_files ov') = lookup q (ov_files ov)).
+Proof. exact failed_dir_resumable. Qed.
+Print Assumptions C14_failed_dir_resumable.
+
+(* non-vacuity: a merge oracle that fails on the file "c" (as git merge-file does on binary content):
+   "a" and "b" were handled (b updated to the new upstream), the run aborts at "c", "d".."g" are untouched,
+   the baseline is the old one *)
+Definition ex_merge_fail (b o u : content) : option (content * bool) :=
+  match o with 67 :: _ => None | _ => ex_merge b o u end.
+
+Example C14_nonvacuous_failed :
+  let '(ov', out) := rebase_overlay ex_merge_fail ex_none3 ex_none3 (mkOpts false false) ex_w ex_ov in
+  out = inl code_unexpected /\ ov_baseline ov' = Some ex_bl /\
+  lookup [98] (ov_files ov') = Some [66; 50] /\                                  (* handled before the abort *)
+  lookup [99] (ov_files ov') = Some [67; 49] /\ lookup [100] (ov_files ov') = Some [33; 68] /\
+  lookup [103] (ov_files ov') = Some [71; 48].                                   (* not reached: untouched *)
+Proof. vm_compute. repeat split; reflexivity. Qed.
